@@ -266,6 +266,22 @@ def cases():
                 els = doc[0][2]
                 add('partial packet', hn, doc, 53, lp, content(exp_doc), next_el=els[els.index(lp) + 1] if els.index(lp) + 1 < len(els) else None,
                     window=(render(doc)[1][id(lp)][1], render(doc)[1][id(lp)][1] + 1))
+                # PARTIAL_PACKET behind a packet that holds the not-applicable value, a list or a table in the columns the short
+                # packet leaves empty (the missing values are unknown, whatever the previous packet held there), and missing two values
+                for fill in (('.', ('a',)), ("'q'", S('q', 1))):
+                    doc = copy.deepcopy(host)
+                    lp = [e for e in doc[0][2] if e[0] == 'loop'][0]
+                    ncol = len(lp[1])
+                    if ncol < 2:
+                        continue
+                    lp[2].append([fill] * ncol)
+                    lp[2].append([('last', S('last'))] * (ncol - min(2, ncol - 1)))
+                    exp_doc = copy.deepcopy(doc)
+                    elp = [e for e in exp_doc[0][2] if e[0] == 'loop'][0]
+                    elp[2][-1] = elp[2][-1] + [('?', UNKV)] * min(2, ncol - 1)
+                    els = doc[0][2]
+                    add('partial packet', '%s after a packet of %s' % (hn, fill[0]), doc, 53, lp, content(exp_doc), next_el=els[els.index(lp) + 1] if els.index(lp) + 1 < len(els) else None,
+                        window=(render(doc)[1][id(lp)][1], render(doc)[1][id(lp)][1] + 1))
                 # DUP_ITEMNAME in a loop header: the duplicate column is dropped
                 doc = copy.deepcopy(host)
                 els = doc[0][2]
